@@ -47,9 +47,13 @@ func runC08(c *Ctx) {
 			updCallers = append(updCallers, core.FuncKey(fn))
 		}
 	}
-	r.Check(len(addCallers) == 1 && addCallers[0] == "(*dnsforward.Server).logQuery", "C08-D1", "single-log-writer", "-",
+	// one writer each: the recorder of that name, or — when the recorder was folded away — the one function that took it over
+	oneWriter := func(callers []string, name string) bool {
+		return len(callers) == 1 && (callers[0] == name || p.FnExact(name) == nil)
+	}
+	r.Check(oneWriter(addCallers, "(*dnsforward.Server).logQuery"), "C08-D1", "single-log-writer", "-",
 		"the query log is written from one place (logQuery)", fmt.Sprintf("query log entries are added from %v", addCallers))
-	r.Check(len(updCallers) == 1 && updCallers[0] == "(*dnsforward.Server).updateStats", "C08-D1", "single-stats-writer", "-",
+	r.Check(oneWriter(updCallers, "(*dnsforward.Server).updateStats"), "C08-D1", "single-stats-writer", "-",
 		"statistics are updated from one place (updateStats)", fmt.Sprintf("statistics are updated from %v", updCallers))
 
 	pq := p.Fn("(*dnsforward.Server).processQueryLogsAndStats")
@@ -70,21 +74,43 @@ func runC08(c *Ctx) {
 		"(*dnsforward.Server).shouldLog":       "iface:(querylog.QueryLog).ShouldLog",
 		"(*dnsforward.Server).shouldCountStat": "iface:(stats.Interface).ShouldCount",
 	}
-	for _, pair := range [][3]string{
-		{"(*dnsforward.Server).logQuery", "(*dnsforward.Server).shouldLog", "log"},
-		{"(*dnsforward.Server).updateStats", "(*dnsforward.Server).shouldCountStat", "stats"},
+	for _, pair := range [][4]string{
+		{"(*dnsforward.Server).logQuery", "(*dnsforward.Server).shouldLog", "log", kAdd},
+		{"(*dnsforward.Server).updateStats", "(*dnsforward.Server).shouldCountStat", "stats", kUpdate},
 	} {
-		// every module caller of the recorder
+		// the write into the subsystem happens under a positive decision: either in the function that makes it,
+		// or — when that function is a recorder that only builds and hands over the record — at every call of it
 		n := 0
-		for _, fn := range p.ModFnsIn("dnsforward") {
-			if len(core.CallsTo(fn, pair[0])) == 0 {
+		guardedIn := func(fn *ssa.Function, sinkKey string) bool {
+			g, ng := core.CondEdges(fn, boolTrue(pair[1], innerOf[pair[1]]))
+			off, _ := core.UnguardedSinks(fn, core.IsCallTo(false, sinkKey), g)
+			return ng > 0 && len(off) == 0
+		}
+		for _, w := range p.ModFnsIn("dnsforward") {
+			if w.Blocks == nil || core.IsNextPkg(w) || len(core.CallsTo(w, pair[3])) == 0 {
 				continue
 			}
-			n++
-			g, ng := core.CondEdges(fn, boolTrue(pair[1], innerOf[pair[1]]))
-			off, _ := core.UnguardedSinks(fn, core.IsCallTo(false, pair[0]), g)
-			r.Check(ng > 0 && len(off) == 0, "C08-D1", "record-after-decision:"+pair[2]+"@"+core.FuncKey(fn), p.FnPos(fn),
-				pair[0]+" runs only on the true edge of "+pair[1], "a query can be recorded ("+pair[2]+") without a positive "+pair[1]+" decision", traceOf(p, off)...)
+			wk := core.FuncKey(w)
+			if guardedIn(w, pair[3]) {
+				n++
+				r.Ok("C08-D1", "record-after-decision:"+pair[2]+"@"+wk, p.FnPos(w), "the "+pair[2]+" write runs only on the true edge of "+pair[1])
+				continue
+			}
+			nc := 0
+			for _, fn := range p.ModFnsIn("dnsforward") {
+				if len(core.CallsTo(fn, wk)) == 0 {
+					continue
+				}
+				n++
+				nc++
+				g, ng := core.CondEdges(fn, boolTrue(pair[1], innerOf[pair[1]]))
+				off, _ := core.UnguardedSinks(fn, core.IsCallTo(false, wk), g)
+				r.Check(ng > 0 && len(off) == 0, "C08-D1", "record-after-decision:"+pair[2]+"@"+core.FuncKey(fn), p.FnPos(fn),
+					wk+" runs only on the true edge of "+pair[1], "a query can be recorded ("+pair[2]+") without a positive "+pair[1]+" decision", traceOf(p, off)...)
+			}
+			if nc == 0 {
+				r.Fail("C08-D1", "record-after-decision:"+pair[2]+"@"+wk, p.FnPos(w), "a query can be recorded ("+pair[2]+") without a positive "+pair[1]+" decision: "+wk+" writes unconditionally and no caller was found")
+			}
 		}
 		r.Floor("C08-D1", "recorder-callers:"+pair[2], n, 1)
 	}
@@ -529,6 +555,46 @@ func c08Anonymise(c *Ctx, pq *ssa.Function) {
 		r.Check(okS, "C08-D2", "stats-receive-anonymised-string", p.InstrPos(call.Instr),
 			"statistics receive the string of the anonymised address", "statistics receive a client address other than the anonymised one")
 	}
+	// wherever the records are filled in: the log's address is the anonymised slice, the statistics' client is the
+	// ClientID or the string of the anonymised address (whichever function holds the store, through its parameters)
+	nLogIP, nStatClient := 0, 0
+	for _, f := range p.ModFnsIn("dnsforward") {
+		if f.Blocks == nil || core.IsNextPkg(f) {
+			continue
+		}
+		for _, b := range f.Blocks {
+			for _, in := range b.Instrs {
+				st, isSt := in.(*ssa.Store)
+				if !isSt {
+					continue
+				}
+				fr, isF := core.FieldOfAddr(st.Addr)
+				if !isF {
+					continue
+				}
+				switch {
+				case fr.Type == "querylog.AddParams" && fr.Field == "ClientIP":
+					nLogIP++
+					r.Check(is(st.Val, ipV), "C08-D2", fmt.Sprintf("log-record-address-is-anonymised#%d", nLogIP), p.InstrPos(in),
+						"the address stored in the log record is the slice the anonymiser was applied to", "the log record is filled with an address other than the anonymised slice")
+				case fr.Type == "stats.Entry" && fr.Field == "Client":
+					nStatClient++
+					okS := ipStr != nil
+					for _, leaf := range core.Leaves(st.Val) {
+						fr2, _, isF2 := core.LoadedField(leaf)
+						if ipStr != nil && under(leaf) == ipStr || isF2 && fr2.Field == "clientID" {
+							continue
+						}
+						okS = false
+					}
+					r.Check(okS, "C08-D2", fmt.Sprintf("stats-record-client-is-anonymised#%d", nStatClient), p.InstrPos(in),
+						"the client stored in the statistics entry is the ClientID or the string of the anonymised address", "the statistics entry is filled with a client address other than the anonymised one")
+				}
+			}
+		}
+	}
+	r.Floor("C08-D2", "log-record-address-stores", nLogIP, 1)
+	r.Floor("C08-D2", "stats-record-client-stores", nStatClient, 1)
 	// ids always contain the address string
 	for _, k := range []string{"(*dnsforward.Server).shouldLog", "(*dnsforward.Server).shouldCountStat", "iface:(querylog.QueryLog).ShouldLog", "iface:(stats.Interface).ShouldCount"} {
 		for _, call := range callsIn(k) {
